@@ -18,6 +18,8 @@ class Ctx:
         self.stats = collections.Counter()
         self.void = self.f.get_void_type()
         self.boolean = self.f.get_boolean_type()
+        self.infer = False
+        self.diffs = []
 
     def report(self, rule, where, detail):
         self.viol.append((rule, where, detail))
@@ -155,7 +157,11 @@ class Scope:
         return None
 
 
+INFERRED = {}
+
 def decl_type(d):
+    if id(d) in INFERRED and INFERRED[id(d)] is not None and INFERRED[id(d)] is not BOTTOM:
+        return INFERRED[id(d)]
     return d.get_type()
 
 
@@ -439,7 +445,23 @@ def t_assign(ctx, e, sc, where):
     return ctx.void
 
 
+def same_type(ctx, a, b):
+    if a is BOTTOM or a is None or b is None: return None
+    try:
+        return snap(a) == snap(b) or (sub(ctx, a, b) and sub(ctx, b, a))
+    except Exception:
+        return None
+
+
 def check_var(ctx, v, sc, where):
+    if v.var_type is None and ctx.infer:
+        it = typeof(ctx, v.expr, sc, where + '/' + v.name, None)
+        INFERRED[id(v)] = it
+        ctx.stats['erased_var'] += 1
+        eq = same_type(ctx, it, v.inferred_type)
+        ctx.stats['erased_var_infer_%s' % ('eq' if eq else ('unknown' if eq is None else 'DIFF'))] += 1
+        if eq is False and len(ctx.diffs) < 5: ctx.diffs.append((where + '/' + v.name, str(it), str(v.inferred_type)))
+        return
     t = v.var_type if v.var_type is not None else v.inferred_type
     it = typeof(ctx, v.expr, sc, where + '/' + v.name, t)
     assignable(ctx, it, t, where + '/' + v.name, 'init', v.expr)
@@ -452,6 +474,14 @@ def check_func(ctx, f, sc, where):
             assignable(ctx, typeof(ctx, p.default, sc, where, p.get_type()), p.get_type(), where, 'default', p.default)
         s2.names[p.name] = p
     if f.body is None: return
+    if f.ret_type is None and ctx.infer:
+        bt = typeof(ctx, f.body, s2, where, None)
+        INFERRED[id(f)] = bt
+        ctx.stats['erased_ret'] += 1
+        eq = same_type(ctx, bt, f.inferred_type)
+        ctx.stats['erased_ret_infer_%s' % ('eq' if eq else ('unknown' if eq is None else 'DIFF'))] += 1
+        if eq is False and len(ctx.diffs) < 5: ctx.diffs.append((where, str(bt), str(f.inferred_type)))
+        return
     rt = f.get_type()
     bt = typeof(ctx, f.body, s2, where, rt)
     if rt != ctx.void and not is_builtin_name(rt, 'Unit'):
@@ -481,8 +511,10 @@ def check_class(ctx, c, gsc):
         check_func(ctx, fn, sc, where + '/' + fn.name)
 
 
-def check_program(p):
+def check_program(p, infer=False):
+    INFERRED.clear()
     ctx = Ctx(p)
+    ctx.infer = infer
     gsc = Scope()
     for n, d in ctx.decls.items(): gsc.names[n] = d
     for n, d in ctx.decls.items():
